@@ -1665,6 +1665,12 @@ class Interp:
                 if isinstance(base, Arr) and isinstance(fv, Arr) and fv.ndim == 0:
                     return Arr(base.dims, fv.poly, unit=fv.unit if fv.unit is not None else num(1), fresh=True, dt=base.dt if 'dtype' in kw else fv.dt)
                 return Unk('np.%s' % last, e)
+            if last == 'diff' and len(args) == 1 and not kw:
+                x_ = self._as_arr(args[0])
+                if isinstance(x_, Arr) and x_.ndim == 1 and x_.dims[0] and x_.mask is None:
+                    lab_ = x_.dims[0]            # x[1:] - x[:-1]
+                    return Arr((lab_ + '~',), alg.relabel(x_.poly, lab_, lab_ + '~', '@+1') - alg.relabel(x_.poly, lab_, lab_ + '~', '@0'), unit=x_.unit)
+                return Unk('np.diff', e)
             if last == 'outer' and len(args) == 2 and not kw:
                 a_, b_ = self._as_arr(args[0]), self._as_arr(args[1])
                 if isinstance(a_, Arr) and isinstance(b_, Arr) and a_.ndim == 1 and b_.ndim == 1 and a_.dims[0] != b_.dims[0] and a_.mask is None and b_.mask is None:
